@@ -817,6 +817,9 @@ func (c *FnCtx) execInstr(fr *Frame, st *State, instr ssa.Instruction) {
 		if s := structOf(et); s != nil {
 			r := c.allocRef(st, "new$"+typeKey(et))
 			c.zeroStruct(st, et, r)
+			if typeKey(et) == "strings.Builder" {
+				c.sbInit(st, r)
+			}
 			c.initEmbedded(st, et, r, 0)
 			fr.regs[x] = Sc{r}
 			return
@@ -1049,6 +1052,10 @@ func (c *FnCtx) initEmbedded(st *State, t types.Type, ref Term, depth int) {
 			c.heapSet(st, "smap$dom", c.vc.Name("h", Store(h, sub, empty)))
 			hc := c.heapGet(st, "smap$card", SArr(SInt, SInt))
 			c.heapSet(st, "smap$card", c.vc.Name("h", Store(hc, sub, IntLit(0))))
+			continue
+		}
+		if typeKey(ft) == "strings.Builder" {
+			c.sbInit(st, sub)
 			continue
 		}
 		c.initEmbedded(st, ft, sub, depth+1)
